@@ -121,6 +121,8 @@ SETFAM = {
     "exp-only": lambda z: [rsome.exp(z) <= 3],
     "entropy-only": lambda z: [rsome.entropy(z) >= 0.1],
     "pnorm-exc-only": lambda z: [rsome.pnorm(z, 2.5) <= 1.5],
+    # no constraint at all (forall() / minmax(obj) without arguments): the whole space, NOT the set defined before
+    "empty": lambda z: [],
 }
 
 
@@ -235,7 +237,7 @@ def ro_histories(tier, seed):
     base = [("create", "A"), ("create", "B"), ("st", "A"), ("st", "B"), ("minmax", "box")]
     out = []
     famA = ["ball", "pnorm", "box", "kl-only"] if tier == "quick" else list(SETFAM)
-    famB = ["box", "exp", "budget", "exp-only", "entropy-only"] if tier == "quick" else list(SETFAM)
+    famB = ["box", "exp", "budget", "exp-only", "entropy-only", "empty"] if tier == "quick" else list(SETFAM)
     rng = random.Random(seed)
     fixed = []
     for fa, fb in itertools.product(famA, famB):
